@@ -320,6 +320,11 @@ func checkFlattenerDispatch(c *core.Ctx, r *core.Report) {
 	for _, n := range []string{"ParseRawJsonObject", "parseNonJaegerRawJsonArray", "parseSingleString", "parseSingleNumber", "parseSingleBool", "parseSingleNull"} {
 		handlers[c.Obj(pkgWriter, n)] = true
 	}
+	hset := objSet{}
+	for o := range handlers {
+		hset[o] = true
+	}
+	viaHelper := newSummaries(c).successMustPred(hset)
 	typeConst := map[string]int64{}
 	for _, tn := range []string{"Object", "Array"} {
 		if k, ok := c.ExtObj("github.com/buger/jsonparser", tn).(*types.Const); ok {
@@ -338,6 +343,11 @@ func checkFlattenerDispatch(c *core.Ctx, r *core.Report) {
 		core.WalkForward(cl, nil, func(in ssa.Instruction) bool {
 			if ci, ok := in.(ssa.CallInstruction); ok {
 				if f := core.CalleeFunc(ci); f != nil && handlers[f.Origin()] {
+					return false
+				}
+				// a helper of the package that has handed the value to a handler whenever it reports success
+				// (one arm of the dispatch extracted into a function of its own)
+				if viaHelper(ci) {
 					return false
 				}
 			}
